@@ -82,9 +82,11 @@ void cmdNodeList(const Msg& req, Msg& resp)
             {
                 XalanNode* n = D.find(parts[j]);
                 if (!n) { resp.add("fatal", "node not found " + parts[j]); return; }
-                tmp.addNode(n);
+                // "docself": the source list is built through the ordered interface itself (as the results of location steps are), so its
+                // document-order flag is truthful by the implementation's own order - also across documents
+                if (parts[0] == "docself") tmp.addNodeInDocOrder(n, ctx); else tmp.addNode(n);
             }
-            if (parts[0] == "doc") tmp.setDocumentOrder();
+            if (parts[0] == "doc" || parts[0] == "docself") tmp.setDocumentOrder();
             else if (parts[0] == "rev") tmp.setReverseDocumentOrder();
             target.addNodesInDocOrder(tmp, ctx);
             resp.add("state", dump(D, target));
